@@ -142,6 +142,16 @@ func (C12) Run(t *testing.T, plan *kernel.Plan, keepLog bool) *kernel.Result {
 				vals[k] = marker(c, rows, 1)
 			}
 			ins := insertStmt(names, rows, vals, cols, op.Arg(2, 0) == 1)
+			if op.Arg(3, 0) >= 2 {
+				// extended protocol, declared parameter types, protected values as literals:
+				// the query text of the Parse message grows while its parameter types stay
+				ins = insertStmt(names, rows, vals, cols, false)
+				ins.SQL = strings.Replace(ins.SQL, fmt.Sprintf("VALUES (%d, 'p'", rows), "VALUES ($1, $2", 1)
+				ins.Extended, ins.Params, ins.ParamOIDs = true, [][]byte{[]byte(fmt.Sprint(rows)), []byte("p")}, []uint32{23, 25}
+				if op.Arg(3, 0) == 3 {
+					ins.Params[1] = nil // a NULL parameter
+				}
+			}
 			script = append(script, ins)
 			if op.Arg(0, 0)%2 == 0 {
 				// a row whose protected cells are NULL
@@ -223,6 +233,7 @@ func (C12) Run(t *testing.T, plan *kernel.Plan, keepLog bool) *kernel.Result {
 					}
 				}
 			}
+			c12ClientToDB(w, run)
 			w.Probe("rewrite-session")
 		}
 		w.State(fmt.Sprintf("part%d stmts=%d", part, len(script)))
@@ -246,4 +257,122 @@ func tailAt(b []byte, i int) []byte {
 		i = len(b)
 	}
 	return b[i:min(len(b), i+40)]
+}
+
+// parseFrontendStream splits a client->server byte stream into messages (startup message first).
+func parseFrontendStream(stream []byte) ([]pgproto3.FrontendMessage, error) {
+	be := pgproto3.NewBackend(bytes.NewReader(stream), nil)
+	if _, err := be.ReceiveStartupMessage(); err != nil {
+		return nil, err
+	}
+	var msgs []pgproto3.FrontendMessage
+	for {
+		m, err := be.Receive()
+		if err != nil {
+			if strings.Contains(err.Error(), "EOF") {
+				return msgs, nil
+			}
+			return msgs, err
+		}
+		switch v := m.(type) {
+		case *pgproto3.Parse:
+			msgs = append(msgs, &pgproto3.Parse{Name: v.Name, Query: v.Query, ParameterOIDs: append([]uint32(nil), v.ParameterOIDs...)})
+		case *pgproto3.Bind:
+			c := &pgproto3.Bind{DestinationPortal: v.DestinationPortal, PreparedStatement: v.PreparedStatement,
+				ParameterFormatCodes: append([]int16(nil), v.ParameterFormatCodes...), ResultFormatCodes: append([]int16(nil), v.ResultFormatCodes...)}
+			for _, x := range v.Parameters {
+				if x == nil {
+					c.Parameters = append(c.Parameters, nil)
+				} else {
+					c.Parameters = append(c.Parameters, append([]byte{}, x...))
+				}
+			}
+			msgs = append(msgs, c)
+		case *pgproto3.Query:
+			msgs = append(msgs, &pgproto3.Query{String: v.String})
+		default:
+			enc, err := m.Encode(nil)
+			if err != nil {
+				return msgs, err
+			}
+			msgs = append(msgs, &rawFrontend{enc})
+		}
+	}
+}
+
+type rawFrontend struct{ b []byte }
+
+func (*rawFrontend) Frontend()                          {}
+func (*rawFrontend) Decode([]byte) error                { return nil }
+func (r *rawFrontend) Encode(dst []byte) ([]byte, error) { return append(dst, r.b...), nil }
+
+// c12ClientToDB compares the client->proxy and proxy->database streams message by message:
+// rewritten Parse/Bind/Query keep everything except the query text and the transformed parameter values.
+func c12ClientToDB(w *kernel.World, run *SessionRun) {
+	cl, err1 := parseFrontendStream(run.FromCl.Log)
+	db, err2 := parseFrontendStream(run.ToDB.Log)
+	if err1 != nil || err2 != nil {
+		w.Violate("C12", "rewritten-messages-well-formed", "pg/client-to-database", fmt.Sprintf("independent codec fails: client side %v, database side %v", err1, err2))
+		return
+	}
+	if len(cl) != len(db) {
+		w.Violate("C12", "message-count-preserved", "pg/client-to-database", fmt.Sprintf("client sent %d messages, database got %d", len(cl), len(db)))
+		return
+	}
+	for i := range cl {
+		switch c := cl[i].(type) {
+		case *pgproto3.Parse:
+			d, ok := db[i].(*pgproto3.Parse)
+			if !ok || d.Name != c.Name || fmt.Sprint(d.ParameterOIDs) != fmt.Sprint(c.ParameterOIDs) {
+				w.Violate("C12", "untransformed-field-identical", "pg/Parse", fmt.Sprintf("message %d: client sent name=%q types=%v, database got %T %+v", i, c.Name, c.ParameterOIDs, db[i], db[i]))
+				return
+			}
+		case *pgproto3.Bind:
+			d, ok := db[i].(*pgproto3.Bind)
+			// parameter format codes may legitimately change for the parameters Acra transforms (a protected
+			// value travels in binary); the first two parameters (id, plain) are never transformed here
+			if !ok || d.DestinationPortal != c.DestinationPortal || d.PreparedStatement != c.PreparedStatement ||
+				fmt.Sprint(d.ResultFormatCodes) != fmt.Sprint(c.ResultFormatCodes) ||
+				len(d.Parameters) != len(c.Parameters) {
+				w.Violate("C12", "untransformed-field-identical", "pg/Bind", fmt.Sprintf("message %d: client sent %+v, database got %T %+v", i, c, db[i], db[i]))
+				return
+			}
+			for k := range c.Parameters {
+				if (c.Parameters[k] == nil) != (d.Parameters[k] == nil) {
+					w.Violate("C12", "null-markers-preserved", "pg/Bind", fmt.Sprintf("message %d parameter %d: NULL marker changed", i, k))
+					return
+				}
+				if k < 2 && (!bytes.Equal(c.Parameters[k], d.Parameters[k]) || bindFormat(c, k) != bindFormat(d, k)) {
+					w.Violate("C12", "untransformed-field-identical", "pg/Bind", fmt.Sprintf("message %d parameter %d: %.30q (format %d) became %.30q (format %d)", i, k, c.Parameters[k], bindFormat(c, k), d.Parameters[k], bindFormat(d, k)))
+					return
+				}
+			}
+		case *pgproto3.Query:
+			if _, ok := db[i].(*pgproto3.Query); !ok {
+				w.Violate("C12", "message-count-preserved", "pg/Query", fmt.Sprintf("message %d became %T", i, db[i]))
+				return
+			}
+		default:
+			a, _ := cl[i].Encode(nil)
+			b, _ := db[i].Encode(nil)
+			if !bytes.Equal(a, b) {
+				w.Violate("C12", "untouched-message-identical", "pg/client-to-database", fmt.Sprintf("message %d: %.40q became %.40q", i, a, b))
+				return
+			}
+		}
+	}
+}
+
+// bindFormat is the effective format code of parameter k of a Bind message.
+func bindFormat(b *pgproto3.Bind, k int) int16 {
+	switch len(b.ParameterFormatCodes) {
+	case 0:
+		return 0
+	case 1:
+		return b.ParameterFormatCodes[0]
+	}
+	if k < len(b.ParameterFormatCodes) {
+		return b.ParameterFormatCodes[k]
+	}
+	return 0
 }
